@@ -31,6 +31,10 @@ CHECKS = {
    text="Seeded histories of operations (apply conforming / near-miss / unfiltered / when none left, reload, query address+policy) on the durable plutus.json of generated parameterised validators, executed through the real Project::blueprint → apply_parameter → write path and checked after every step against a trivial reference model (original program, applied values, remaining schemas): accepted iff an independent conformance predicate says so, never a panic, nothing changes on rejection, exactly the first remaining parameter of exactly that validator is consumed, published code decodes to [(original d1)…dk], hash is blake2b-224 of the published bytes; at the end one-by-one ≡ all-at-once ≡ raw-bytes path and the applied validator evaluates like the original on all arguments.",
    note="Trusted: the independent CIP-57 conformance predicate over the blueprint's JSON; the unapplied compiledCode as the model's starting point; behaviour compared on the mint-handler context shape.",
    technique="deterministic simulation: seeded operation histories on a durable blueprint file vs executable reference model"),
+ "C19": dict(engine="sim-tx", category="exploration", design_ref="DESIGN.md §4 C19",
+   text="Seeded exploration of synthetic Conway transactions (Plutus V1/V2/V3 scripts of known behaviour; spend with hashed/inline datum, mint, withdraw, publish; witness or reference scripts) evaluated by the real eval_phase_two(_with_protocol) under delivery-order permutations, one missing or extraneous piece, budget-exhaustion points placed at prefix sums of the stand-alone script costs, cost models supplied or absent, protocol versions and slot configurations; compared with a sequential reference fold (plain-map script lookup, per-version argument selection, budget hand-over).",
+   note="Trusted: TxInfo/ScriptContext content (other properties' territory), the CEK machine for stand-alone script costs, pallas for encoding the assembled transaction. Vote/propose purposes are not generated.",
+   technique="deterministic simulation: seeded delivery order, message loss (missing script/datum/input/redeemer), budget-exhaustion placement and clock configuration vs sequential reference fold"),
  "C20": dict(engine="sim-storage", category="fault_enumeration", design_ref="DESIGN.md §4 C20",
    text="Storage-fault subset of C20: artefacts produced by the real tool-chain (plutus.json, hex/CBOR/flat scripts, pretty UPLC, .ak sources, aiken.toml, parameter CBOR) are truncated, bit-flipped, torn between two genuine builds, or have blocks zeroed / duplicated / deleted / swapped / appended, then fed to the consumer the tool uses for that file and to the next consumer down the chain, on an 8 MiB stack. Quick samples seeded fault plans over the whole artefact corpus; thorough additionally enumerates every truncation point and every single-bit flip of artefacts up to 4 KiB. A panic, abort, stack overflow or hang is a violation.",
    note="Claimed for the storage-fault model only: adversarially constructed inputs (deep nesting, grammar-aware garbage) are outside this technique family. Verdict taken in the shipped profile (no overflow checks). Invalid UTF-8 is rejected by fs::read_to_string before a text decoder sees it.",
